@@ -104,6 +104,7 @@ type QCrashTask struct {
 	Cfg     QCfgSpec     `json:"cfg"`
 	Path    []Q          `json:"path"`
 	MaxBits int          `json:"max_bits"`
+	Coarse  bool         `json:"coarse,omitempty"` // see CrashTask.Coarse
 	Only    *ImageRecipe `json:"only,omitempty"`
 }
 
@@ -146,6 +147,15 @@ func handleQCrash(raw []byte) interface{} {
 		if cp.K < env.LastOpLog {
 			return true
 		}
+		if t.Coarse && t.Only == nil {
+			keep := cp.K >= len(ops)-8 || cp.K%61 == 0
+			if cp.K > 0 && (ops[cp.K-1].Kind == simdisk.OpSync || ops[cp.K-1].Kind == simdisk.OpMarker) {
+				keep = true
+			}
+			if !keep {
+				return true
+			}
+		}
 		// committed: last header write followed by a completed sync; in flight: header writes issued since
 		committed := baseTxid
 		var inflight []uint64
@@ -178,6 +188,10 @@ func handleQCrash(raw []byte) interface{} {
 			p = 63
 		}
 		ms, capped := masks(p, t.MaxBits)
+		if t.Coarse && p > 2 {
+			full := uint64(1)<<uint(p) - 1
+			ms, capped = []uint64{0, full, uint64(1)<<uint(p/2) - 1}, false
+		}
 		if capped {
 			res.Capped++
 		}
@@ -339,7 +353,6 @@ func runC06(ctx *core.Ctx, pool *par.Pool) {
 		cfgs = append(cfgs, QCfgSpec{File: "E", Buffer: 6})
 		ctx.SetBudget(15 * time.Minute)
 	}
-	share := ctx.Budget() * 8 / 10 / time.Duration(len(cfgs))
 	var total xstate.Stats
 	images, distinct, nontrivial, boundaries, tested, capped := 0, 0, 0, 0, 0, 0
 	outcomes := map[string]int{}
@@ -347,6 +360,7 @@ func runC06(ctx *core.Ctx, pool *par.Pool) {
 		c := c
 		qc, _ := c.cfg()
 		var cands [][]Q
+		share := ctx.FairShare(len(cfgs), 0.8)
 		endRun := ctx.Phase(share)
 		endBFS := ctx.Phase(share * 3 / 10)
 		st := qBFS(ctx, pool, c, queueAlphabet(qc.File.PageSize, true), depth, false, func(string) bool { return false }, func(from *QNode, s *QSucc, isNew bool) {
@@ -397,6 +411,14 @@ func runC06(ctx *core.Ctx, pool *par.Pool) {
 			tasks = append(tasks, QCrashTask{Type: "qcrash", Cfg: c, Path: cands[i], MaxBits: maxBits})
 		}
 		ctx.Set("io_shapes_"+c.String(), len(tasks))
+		if c.File == "C" {
+			// one flush with more pages than the background writer takes in one batch (1024):
+			// a 1100-page write buffer and one event that fills it
+			hc := QCfgSpec{File: "C", Buffer: 1200}
+			huge := []Q{{K: queuedrv.QWrite, A: 1100 * 1000}, {K: queuedrv.QFlush}}
+			tasks = append([]QCrashTask{{Type: "qcrash", Cfg: hc, Path: huge, Coarse: true}}, tasks...)
+			ctx.Set("huge_flush_histories", 1)
+		}
 		raw := make([][]byte, len(tasks))
 		for i := range tasks {
 			raw[i], _ = json.Marshal(tasks[i])
@@ -429,7 +451,7 @@ func runC06(ctx *core.Ctx, pool *par.Pool) {
 				tt := t
 				rec := v.Recipe
 				tt.Only = &rec
-				ctx.Violate(v.Class, fmt.Sprintf("queue %s history [%s]: %s", c, queuedrv.PathString(t.Path), v.Msg), map[string]interface{}{"kind": "qcrash", "task": tt})
+				ctx.Violate(v.Class, fmt.Sprintf("queue %s history [%s]: %s", t.Cfg, queuedrv.PathString(t.Path), v.Msg), map[string]interface{}{"kind": "qcrash", "task": tt})
 			}
 		}, func(int) { skipped++ })
 		if skipped > 0 {
